@@ -421,7 +421,9 @@ CHECKS["C19"] = {
                   "write by any parser execution faults deterministically and is reported with its address; (2) for 14 exchanges that exercise every subsystem, every ordered pair of parsers "
                   "(same exchange on both, and different ones) is run under ALL call-level interleavings (up to 252 per pair) and with the other parser's next call NESTED inside each callback, "
                   "and rotating triples under all interleavings of their first three calls; each parser's observation (callback trace with data hashes, bodies, transaction dumps) must equal "
-                  "its solo observation and no allocation may be left. (3) Supporting, sampling only: 8 threads x all captures x 20 rounds free-running under ThreadSanitizer.",
+                  "its solo observation and no allocation may be left. (3) Process-global state: the only process-wide call the library makes while parsing, umask() around mkstemp() of an extracted file, is hooked (--wrap) and "
+                  "turned into a scheduling point; two real threads parse a file upload and EVERY interleaving of their umask() calls is enforced; the process umask must be unchanged after each. "
+                  "(4) Supporting, sampling only: 8 threads x all captures x 20 rounds free-running under ThreadSanitizer.",
     "level_note": "Instruction-level thread schedules are not enumerated (no scheduling points exist); the argument is non-interference by write-protection + exhaustive call/callback-level "
                   "interleaving. The TSan pass is a sample and is labelled so. zlib and libc are outside the protected regions.",
     "design_ref": "DESIGN.md §6 C19",
@@ -430,7 +432,9 @@ CHECKS["C19"] = {
     "mc_explanation": "states = distinct per-parser callback traces observed, transitions = API calls issued; every schedule runs on the implementation",
     "assumptions": ["IDS personality with both body parsers and request decompression as the shared configuration"],
     "jobs": lambda tier: [J("ilv", "plain"), J("ilv", "shared", ["--protect"]), J("ilv", "asan"),
-                          J("tsanrun", "tsan", ["--threads", "8", "--rounds", "20" if tier == "quick" else "100"], shards=1)],
+                          J("tsanrun", "tsan", ["--threads", "8", "--rounds", "20" if tier == "quick" else "100"], shards=1),
+                          # process-global state: the library's umask() calls hooked as scheduling points, every interleaving of two threads enforced
+                          J("umaskmc", "plain", [], shards=1)],
 }
 
 
